@@ -20,6 +20,11 @@ pub struct InputVariant {
 }
 
 impl InputVariant {
+    /// The fields of the variant, for validation across them.
+    pub(in crate::options) fn fields(&self) -> &Fields<InputField> {
+        &self.data
+    }
+
     pub fn as_codegen_variant<'a>(&'a self, ty_ident: &'a syn::Ident) -> codegen::Variant<'a> {
         codegen::Variant {
             ty_ident,
